@@ -46,7 +46,7 @@ CLAIMS = {
    technique='CBMC full-domain lemmas over extracted encoder emit code + decoder step'),
  'C06': dict(level='proof', design='6 C06',
    text='One step (loop body) of XdlParser::parse proved for EVERY byte and EVERY parser configuration satisfying a representation invariant (context-stack shape, comment markers, state/container consistency, unicode counter): '
-        'no stack underflow, indices in range, invariant preserved, at most one push-back per character, container contexts paired with value-list pushes/pops; the constructor establishes the invariant. 
+        'no stack underflow, indices in range, invariant preserved, at most one push-back per character, container contexts paired with value-list pushes/pops; the constructor establishes the invariant. '
         'Prefix rejection ingredients: open containers decrease only on a closing bracket (one per input character), a string is left only at its quote, and value() returns a value only when nothing is open. '
         'By induction over the input bytes: total and memory-safe on any byte string, and chunk-independent (the step has no state outside the parser object).',
    note=TB + 'Containers are ghost models: context stack = 3-entry window + depth with C01 top/pop preconditions, token buffer = 15 characters + length, Var tree = counters. NOT decided: agreement with an independent JSON parser on all RFC 8259 documents, the value tree built by put()/Var, atof, prefix rejection as a separate theorem, Json::decode wrapper (parser reuse across calls).',
